@@ -365,6 +365,8 @@ fn history(c: &mut Case, init: usize, steps: usize, big: bool) {
     c.describe(|| trace.join("; "));
 }
 
+const RMW_ORDS: [Ordering; 5] = [Ordering::Relaxed, Ordering::Acquire, Ordering::Release, Ordering::AcqRel, Ordering::SeqCst];
+
 fn atomic_history(c: &mut Case, steps: usize) {
     let len = pick_len(c, false);
     let init = c.rng().random_bool(0.5);
@@ -389,16 +391,28 @@ fn atomic_history(c: &mut Case, steps: usize) {
             0..=29 if len > 0 => {
                 let i = c.rng().random_range(0..len);
                 let v = c.rng().random_bool(0.5);
-                a.set(i, v, o);
+                // set and swap are read-modify-write operations: every ordering is admissible
+                let o = RMW_ORDS[c.rng().random_range(0..5)];
+                if let Err(msg) = catch(|| a.set(i, v, o)) {
+                    c.fail("set", "panic", &msg, &format!("set({},{},{:?}) panicked; {}", i, v, o, tr(&trace)));
+                    return;
+                }
                 m[i] = v;
-                trace.push(format!("set({},{})", i, v as u8));
+                trace.push(format!("set({},{},{:?})", i, v as u8, o));
                 muts += 1;
             }
             30..=49 if len > 0 => {
                 let i = c.rng().random_range(0..len);
                 let v = c.rng().random_bool(0.5);
-                let old = a.swap(i, v, o);
-                trace.push(format!("swap({},{})", i, v as u8));
+                let o = RMW_ORDS[c.rng().random_range(0..5)];
+                let old = match catch(|| a.swap(i, v, o)) {
+                    Ok(x) => x,
+                    Err(msg) => {
+                        c.fail("swap", "panic", &msg, &format!("swap({},{},{:?}) panicked; {}", i, v, o, tr(&trace)));
+                        return;
+                    }
+                };
+                trace.push(format!("swap({},{},{:?})", i, v as u8, o));
                 c.check("swap", old == m[i], || format!("swap({},{}) returned {} but the bit was {}; {}", i, v, old, m[i], tr(&trace)));
                 m[i] = v;
                 muts += 1;
@@ -450,6 +464,8 @@ fn atomic_history(c: &mut Case, steps: usize) {
                 trace.push("roundtrip".into());
             }
             _ => {
+                // get is a load: Relaxed, Acquire and SeqCst are admissible
+                let o = [Ordering::Relaxed, Ordering::Acquire, Ordering::SeqCst][c.rng().random_range(0..3)];
                 for (i, &x) in m.iter().enumerate() {
                     if a.get(i, o) != x || a[i] != x {
                         c.fail("atomic_get", "mismatch", "", &format!("atomic get({}) got {} model {}; {}", i, a.get(i, o), x, tr(&trace)));
